@@ -605,7 +605,10 @@ func (fr *Frame) execInstr(ins ssa.Instruction, st *State) *State {
 		st.armed[x] = True
 		return st
 	case *ssa.RunDefers:
-		return fr.runDefers(st, false)
+		if len(fr.deferSites()) == 0 {
+			return st
+		}
+		return fr.afterDefers(fr.runDefers(st, false))
 	case *ssa.MakeChan:
 		return fr.execMakeChan(x, st)
 	case *ssa.Send:
